@@ -13,12 +13,13 @@ import Lc.Driver.C19
 import Lc.Driver.C20
 import Lc.Driver.Bin
 import Lc.Driver.C10Stage
+import Lc.Driver.SmCli
 import Lc.Driver.ScenarioHandle
 
 open Lean Lc.Driver
 
 def handlers : List (String → Json → Option Json) :=
-  [Base.handle, C05.handle, C06.handle, C07.handle, C11.handle, C12.handle, C13.handle, C14.handle, C17.handle, C18.handle, C19.handle, C20.handle, Bin.handle, C10Stage.handle, ScenarioHandle.handle]
+  [Base.handle, C05.handle, C06.handle, C07.handle, C11.handle, C12.handle, C13.handle, C14.handle, C17.handle, C18.handle, C19.handle, C20.handle, Bin.handle, C10Stage.handle, SmCli.handle, ScenarioHandle.handle]
 
 def dispatch (j : Json) : Json :=
   let op := getStr j "op"
